@@ -471,3 +471,39 @@ for n, w in (("c16_scan_vs_add", "the writer's announce+scan preempted everywher
 for n in ("c16_protocol_o0", "c16_protocol_o1"):
     HARNESSES[n]["tier"] = "thorough"
     HARNESSES[n]["timeout"] = 3000
+
+# ---------------------------------------------------------------------------------------------
+# Final tier assignment.  A quick check has to finish in well under 900 s on 8 cores including
+# codegen, E2 and (for known findings) trace extraction + native replay; everything measured above
+# ~400 s, and everything not yet measured, is thorough-only.
+QUICK = {
+    "C01": ["t1_mp_n2_o0", "t4_bc_n2_o1", "t5_bc_n2_o1"],
+    "C02": ["t1_mp_n2_o2", "t3_bc_n1_o1", "t2_mp_n2_o1"],
+    "C03": ["c03_fill_mp_c0", "c03_fill_bc_c1", "c03_fill_mp_c2", "c03_fill_bc_c3", "c03_fill_mp_c4", "c03_fill_bc_c5", "c03_fill_mp_c7",
+            "c03_fill_bc_c8", "c03_fill_mp_c9", "t5_mp_n1_o0", "t1_mp_n1_o0"],
+    "C04": ["c04_bc_shared_inclone", "c04_bc_streams_inclone", "c04_bc_view_inview"],
+    "C05": ["c04_mp_view_inview", "c05_seq_bc_n2_streams", "c05_seq_bc_n1_shared", "c05_seq_mp_n2_shared", "c05_mp_shared_all"],
+    "C06": ["t4_mp_n1_o0", "t3_bc_n2_o0", "t2_bc_n2_o0"],
+    "C07": ["c07_mp_one_o1", "c07_bc_view_o1", "c07_mp_view_o1"],
+    "C08": ["c08_mp_blk00_send_lap", "c08_mp_blk00_drop_lap", "c08_mp_blk00_drop"],
+    "C09": ["c09_mp_a1", "c09_bc_a2", "c09_mp_a3", "c09_mp_a4", "c09_bc_a5", "c09_bc_a2w", "c09_mp_a1w", "c09_bc_a5w"],
+    "C10": ["c10_bc_sole_o1"],
+    "C11": ["c11_bc_drop_last_o1", "c11_bc_unsub_last_o1", "c11_bc_unsub_nonlast_o1"],
+    "C12": [],
+    "C13": ["c13_mp_one", "c13_mp_two_handles", "c13_bc_two_streams", "c13_bc_two_handles", "c13_bc_two_streams_rx0first"],
+    "C14": ["c14_bc_send_vs_poll", "c14_mp_send_vs_poll", "c14_mp_send_vs_droprx", "c14_mp_send_vs_tryrecv", "c14_bc_drop_stream_repoll"],
+    "C15": ["c15_bc_hist6", "c15_mp_hist6", "c15_mp_hist8", "c15_mpfut_direct_recv", "c15_bcfut_direct_recv_drop", "c15_bc_fresh_poll"],
+    "C16": ["c16_protocol_seq", "c16_wq_drop_seq"],
+    "C17": ["c17_teardown_mp", "c17_teardown_bc_stream", "c17_teardown_bc_clone", "c17_churn_r3_nolag", "c17_churn_r3_lag"],
+    "C18": ["c18_mp_frozen_recv", "c18_bc_frozen_send", "c18_mp_frozen_send_mw"],
+}
+for _n, _h in HARNESSES.items():
+    _h["tier"] = "thorough"
+for _p, _names in QUICK.items():
+    for _n in _names:
+        HARNESSES[_n]["tier"] = "quick"
+        if HARNESSES[_n]["primary"] != _p:
+            # a harness is run by the quick check of exactly one property
+            if _p not in HARNESSES[_n]["props"]:
+                HARNESSES[_n]["props"] = list(HARNESSES[_n]["props"]) + [_p]
+            HARNESSES[_n]["primary"] = _p
